@@ -27,14 +27,15 @@ def close(a, b, rel=1e-9):
 
 # adsorbate names as they appear in published mechanisms (isomer prefixes, hyphens, primes are all legal in CTI/YAML)
 ADS_NAMES = ['trans-COOH', 'cis-COOH', 'bi-HCOO', 'mono-HCOO', 'CH3CH2OH', 'CH3-CH2', 'n-C3H7', 'iso-C3H7', 'H2O-OH', 'NH2',
-             'NNH', 'HCOH', 'CH3O', 'eta2-CH2O', 'O-O', 'di-sigma-C2H4', 'pi-C2H4', 'COH', 'HCO', 'OH']
+             'NNH', 'HCOH', 'CH3O', 'eta2-CH2O', 'O-O', 'di-sigma-C2H4', 'pi-C2H4', 'COH', 'HCO', 'OH',
+             '\u03b72-C2H4', '\u03bc2-C2H4', '\u03bc3-CO']      # hapticity / bridging prefixes as printed in papers
 
 
 class WorldC07(World):
     PROP = 'C07'
     RUNS = {'quick': 1200, 'thorough': 25000}
     WALL = {'quick': 50, 'thorough': 560}
-    STATE_CHANGING = ('mkmodel', 'mkphases', 'append', 'extend', 'remove', 'pop', 'clear', 'organize', 'write_cti',
+    STATE_CHANGING = ('mkmodel', 'mkphases', 'append', 'extend', 'remove', 'pop', 'clear', 'swap', 'organize', 'write_cti',
                       'write_thermo_yaml', 'write_yaml')
     STATE_RULE = 'per phase: (type, number of members bucket, built with/without/empty list), reactions with auto ids, writes so far'
     PROBES = ('phase-built-without-species', 'phase-built-with-empty-list', 'two-interfaces-without-species', 'append-species',
@@ -43,7 +44,8 @@ class WorldC07(World):
               'adsorption-reaction', 'lateral-interactions', 'unnamed-interaction', 'motz-wise-on', 'shomate-species', 'nasa9-species',
               'cti-executed', 'yaml-loaded', 'reactor-yaml', 'reactor-reused-dict', 'numpy-values', 'string-values-with-units',
               'units-omitted', 'text-path', 'file-path', 'overwrite', 'write-after-failed-write', 'recovery-after-fault',
-              'clock-jump-before-write', 'default-units', 'bep-section-judged')
+              'clock-jump-before-write', 'default-units', 'bep-section-judged', 'same-size-other-elements-after-a-write',
+              'explicit-zero-barrier', 'non-ascii-name', 'write-with-partial-membership')
     REAL = ('pmutt.io.omkm (write_cti, write_thermo_yaml, write_yaml, organize_phases)', 'pmutt.omkm.phase / pmutt.cantera.phase',
             'pmutt.omkm.reaction.SurfaceReaction / BEP', 'pmutt.mixture.cov.PiecewiseCovEffect', 'Nasa / Nasa9 / Shomate emitters',
             'pmutt.io.ctml_writer (the repo\'s CTI interpreter, used to execute written CTI text)', 'PyYAML')
@@ -114,6 +116,8 @@ class WorldC07(World):
             for j in range(rng.randint(1, 12 if long_names else 5)):
                 e = el()
                 nm = '%s(%s)' % (pool[j], tag) if long_names else 'A%d(%s)' % (j, tag)
+                if not nm.isascii():
+                    self.ctx.probe('non-ascii-name')
                 sp.append({'name': nm, 'phase': s, 'elements': e, 'n_sites': rng.choice([1, 1, 2])})
         for d in sp:
             d['kind'] = rng.choice(sw['kinds'])
@@ -155,7 +159,7 @@ class WorldC07(World):
                     rxd['direction'] = beps[rxd['bep']]['direction']
                 elif k < 0.75:
                     rxd['A'] = round(10 ** rng.uniform(8, 20), 3)
-                    rxd['Ea'] = round(rng.uniform(0, 40), 3)
+                    rxd['Ea'] = rng.choice([round(rng.uniform(0, 40), 3)] * 3 + [0.0, 0])     # 0: declared barrierless
             if id_style == 'user' or (id_style == 'mixed' and rng.random() < 0.5):
                 rxd['id'] = 'r_%04d' % r if rng.random() < 0.7 else 'rxn_%04d' % (100 + r)
             rxs.append(rxd)
@@ -208,6 +212,8 @@ class WorldC07(World):
                 choices += ['remove', 'pop']
                 if rng.random() < 0.2:
                     choices += ['clear']
+            if mem and missing:
+                choices += ['swap', 'swap']
             can_org = self.ctx.allow('C07-unnamed-bep-organize') or all(b['name'] for b in self.md['beps'])
             if rng.random() < 0.15 and can_org:
                 choices += ['organize']
@@ -216,6 +222,9 @@ class WorldC07(World):
             e = rng.choice(choices)
             if e == 'append':
                 return {'c': c, 'op': 'append', 'args': {'phase': pname, 'species': rng.choice(missing)}}
+            if e == 'swap':
+                # one species out, another in: the phase keeps its size, its element set may not
+                return {'c': c, 'op': 'swap', 'args': {'phase': pname, 'out': rng.choice(mem), 'in': rng.choice(missing)}}
             if e == 'extend':
                 return {'c': c, 'op': 'extend', 'args': {'phase': pname, 'species': rng.sample(missing, rng.randint(1, len(missing)))}}
             if e == 'remove':
@@ -442,11 +451,22 @@ class WorldC07(World):
             if n_empty_if >= 2:
                 ctx.probe('two-interfaces-without-species')
             out = len(self.phases)
-        elif name in ('append', 'extend', 'remove', 'pop', 'clear'):
+        elif name in ('append', 'extend', 'remove', 'pop', 'clear', 'swap'):
             if a['phase'] not in self.phases:
                 raise Skip()
             ph, mem = self.phases[a['phase']], self.members[a['phase']]
-            if name == 'append':
+            if name == 'swap':
+                if a['out'] not in mem or a['in'] in mem or a['in'] not in self.live['species']:
+                    raise Skip()
+                els = lambda names: set(e for d in md['species'] if d['name'] in names for e in d['elements'])
+                self.real(ph.remove_species, a['out'], _what='remove_species')
+                mem.remove(a['out'])
+                before = els(mem + [a['out']])
+                self.real(ph.append_species, self.live['species'][a['in']], _what='append_species')
+                mem.append(a['in'])
+                if els(mem) != before and self.n_writes:
+                    ctx.probe('same-size-other-elements-after-a-write')
+            elif name == 'append':
                 if a['species'] in mem or a['species'] not in self.live['species']:
                     raise Skip()
                 ctx.probe('append-species')
@@ -521,6 +541,11 @@ class WorldC07(World):
             return None, self.ou.Units()
         return dict(u), self.ou.Units(**u)
 
+    def _species_handed(self):
+        """Names of the species handed to the writer: all of them, or - while a phase is being refilled - those placed."""
+        placed = set(n for mem in self.members.values() for n in mem)
+        return [d['name'] for d in self.md['species'] if d['name'] in placed]
+
     def _writable(self):
         """The model can be written when every phase holds all of its species (rate constants need the site densities)."""
         if not self.phases:
@@ -533,9 +558,18 @@ class WorldC07(World):
 
     def _op_write_thermo(self, name, a, fault):
         ctx, kit, md = self.ctx, self.kit, self.md
-        if not self._writable():
-            raise Skip()
         order = [i for i in a['order'] if 0 <= i < len(md['reactions'])]
+        if not self._writable():
+            # a model under construction: what is placed so far can be written as long as nothing written refers to an
+            # unplaced species - no reactions, and no lateral interaction of an unplaced species
+            placed = set(self._species_handed())
+            if not self.phases or not placed or any(i['name_i'] not in placed or i['name_j'] not in placed
+                                                    for i in md['interactions']):
+                raise Skip()
+            if any(not self.members.get(r['name']) for r in md['rows']):
+                raise Skip()             # (every phase directive needs at least one species)
+            order = []
+            ctx.probe('write-with-partial-membership')
         rx = [self.live['reactions'][i] for i in order]
         units_arg, units = self._units_obj(a['units'])
         if a['units'] is None or a['units'] == {}:
@@ -561,7 +595,8 @@ class WorldC07(World):
         if a['use_motz_wise']:
             ctx.probe('motz-wise-on')
         what = '%s(%d reactions, units %r)' % (name, len(rx), a['units'])
-        kw = dict(phases=phases, species=self.live['list'], reactions=rx or None, lateral_interactions=inter, units=units_arg,
+        handed = set(self._species_handed())
+        kw = dict(phases=phases, species=[o for o in self.live['list'] if o.name in handed], reactions=rx or None, lateral_interactions=inter, units=units_arg,
                   T=a['T'], P=a['P'], newline=a['newline'])
         if name == 'write_cti':
             call = lambda fn: self.oio.write_cti(filename=fn, use_motz_wise=a['use_motz_wise'], write_xml=False, **kw)
@@ -587,6 +622,8 @@ class WorldC07(World):
         from pmutt import constants as c
         act_unit = units.act_energy
         if r['Ea'] is not None:
+            if r['Ea'] == 0:
+                self.ctx.probe('explicit-zero-barrier')
             Ea = c.convert_unit(r['Ea'], initial='kcal/mol', final=act_unit)
         else:
             Ea = None
@@ -616,11 +653,13 @@ class WorldC07(World):
         md = self.md
         got = doc.get('species') or []
         names = [s.get('name') for s in got]
-        want = [d['name'] for d in md['species']]
+        want = self._species_handed()
         if sorted(names) != sorted(want):
-            raise Violation('each-species-once', '%s: species section lists %r, the model has %r' % (what, names, want))
+            raise Violation('each-species-once', '%s: species section lists %r, the writer was handed %r' % (what, names, want))
         by = {s['name']: s for s in got}
         for d in md['species']:
+            if d['name'] not in want:
+                continue
             s = by[d['name']]
             obj = self.live['species'][d['name']]
             comp = {k: float(v) for k, v in (s.get('composition') or {}).items()}
@@ -868,9 +907,9 @@ class WorldC07(World):
         self.ctx.probe('cti-executed')
         md = self.md
         names = [s._name for s in cw._species]
-        want = [d['name'] for d in md['species']]
+        want = self._species_handed()
         if sorted(names) != sorted(want):
-            raise Violation('each-species-once', '%s: species directives %r, the model has %r' % (what, names, want))
+            raise Violation('each-species-once', '%s: species directives %r, the writer was handed %r' % (what, names, want))
         for s in cw._species:
             d = [x for x in md['species'] if x['name'] == s._name][0]
             obj = self.live['species'][d['name']]
